@@ -32,6 +32,9 @@ std::vector<PacketPtr> TECMP::Decoder::Decode(const void* data, const std::size_
 
 TecmpPayloadPtr TECMP::Decoder::GetCaptureModulePayload(const uint8_t* payloadData, const std::size_t size)
 {
+    if (!CaptureModulePayload::isValidPayload(payloadData, size))
+        return {};
+
     CaptureModulePayload payload(payloadData, size);
     if (payload.isValid())
         return std::make_shared<Payload>(payload);
